@@ -147,6 +147,50 @@ def c17_task(n_targets):
         s.cleanup()
 
 
+def c17_regen_from_generated_task(_):
+    """The source handed to `config generate` is itself a (hand-edited) copy of an earlier generated file,
+    so it already carries `source.algorithm` and `source.checksum`. After generating from it nothing has
+    been touched: every API succeeds; editing the source afterwards: every API fails."""
+    s = sc.Scratch("c17regen")
+    try:
+        ports = (s.port(), s.port())
+        src = cfg_value(3, "Monorail.src.json", ports)
+        r = sc.Repo(s, "r", src["targets"], commands={"pkg/t0000": {"build": "x"}}, ports=False)
+        os.unlink(r.path("Monorail.json"))
+        src_text = json.dumps(src, indent=2)
+        r.write("Monorail.src.json", src_text)
+        f_arg = ["-f", r.path("Monorail.json")]
+        if r.mr(*f_arg, "config", "generate", stdin=src_text.encode()).code != 0:
+            return {"judged": 0, "v": []}
+        gen_text = open(r.path("Monorail.json")).read()
+        new_src = gen_text.replace('"max_retained_runs": 3', '"max_retained_runs": 7').replace('"max_retained_runs":3', '"max_retained_runs":7')
+        r.write("Monorail.src.json", new_src)
+        g2 = r.mr(*f_arg, "config", "generate", stdin=new_src.encode())
+        if g2.code != 0:
+            return {"judged": 1, "v": []}   # refusing such a source is fine; nothing to judge then
+        v = []
+        judged = 0
+        apis = [a for a in APIS if a[0] in ("config show", "target show -g", "checkpoint update", "analyze", "run", "result show")]
+        for name, argv in apis:
+            res = r.mr(*argv, env=r.trace_env())
+            judged += 1
+            if res.code != 0:
+                v.append(("untouched-api-fails", "[source is an edited copy of a generated file] %s with untouched files: exit %s %s" % (name, res.code, res.err[:200])))
+        r.write("Monorail.src.json", new_src.replace('"max_retained_runs": 7', '"max_retained_runs": 8').replace('"max_retained_runs":7', '"max_retained_runs":8'))
+        for name, argv in apis:
+            res = r.mr(*argv, env=r.trace_env())
+            judged += 1
+            if res.code == 0:
+                v.append(("tampered-api-succeeds", "[source is an edited copy of a generated file] %s succeeded after the source was edited again" % name))
+        return {"judged": judged, "v": [(sig, d, {"cli_c17_regen": 1}) for sig, d in v], "size": 0}
+    except common.EngineError as e:
+        return {"engine_error": str(e)}
+    except Exception:
+        return {"engine_error": traceback.format_exc()[-1200:]}
+    finally:
+        s.cleanup()
+
+
 def c17_elsewhere_task(layout):
     """`config generate` and every later command are invoked from a directory other than the one that
     holds the generated file (`-f <abs>/Monorail.json`), with a relative `source.path`: the source that
@@ -296,6 +340,36 @@ def c18_task(n_targets):
             elif None not in outs and len(outs) > 4 and outs[4] != ref[4]:
                 v.append(("serialisation-changes-run", "serialisation %s (%d bytes): run started %s and reported %s; with serialisation compact it started %s and reported %s" % (
                     name, len(text), outs[4]["started"], json.dumps(outs[4]["doc"].get("results"))[:300], ref[4]["started"], json.dumps(ref[4]["doc"].get("results"))[:300])))
+        # a `log tail` listener is started, THEN the file is re-serialised, then a run streams to that
+        # listener: what the listener prints must not depend on which serialisation either of them read
+        import subprocess, time
+        r.set_script(t0["path"], "build", ["out " + b"hello from the run\n".hex(), "exit 0"], argv0=r.path("tools/t0/build.sh"))
+        tail_seen = []
+        for (n1, t1), (n2, t2) in ((sers[0], sers[0]), (sers[0], sers[1]), (sers[1], sers[0]), (sers[0], sers[-1])):
+            r.write("Monorail.json", t1)
+            tf = os.path.join(s.dir, "tail-%d.out" % len(tail_seen))
+            with open(tf, "wb") as fh:
+                lis = subprocess.Popen([common.MONORAIL, "log", "tail", "--stdout", "--stderr"], cwd=r.dir, env=s.env(), stdout=fh, stderr=subprocess.DEVNULL, start_new_session=True)
+            s.popens.append(lis)
+            t_end = time.time() + 10
+            while not sc.port_listening(ports[1]):
+                if lis.poll() is not None or time.time() > t_end:
+                    raise common.EngineError("log tail did not start in the C18 slice")
+                time.sleep(0.02)
+            r.write("Monorail.json", t2)
+            rr = r.mr("run", "-c", "build", "-t", t0["path"], env=r.trace_env())
+            judged += 1
+            t_end = time.time() + 5
+            while b"hello from the run" not in open(tf, "rb").read() and time.time() < t_end:
+                time.sleep(0.05)
+            lis.kill()
+            lis.wait()
+            t_end = time.time() + 5
+            while sc.port_listening(ports[1]) and time.time() < t_end:
+                time.sleep(0.02)
+            tail_seen.append((n1, n2, rr.code, open(tf, "rb").read().count(b"hello from the run")))
+        if len({x[2:] for x in tail_seen}) != 1:
+            v.append(("serialisation-changes-streaming", "listener started under one serialisation, run under another: (listener, run, run exit, lines streamed) = %s" % tail_seen))
         # the file is re-serialised (write to a temporary name, rename over it) by another process at the very
         # moment an invocation opens it: whichever of the two serialisations the invocation ends up reading,
         # it is a complete serialisation of the same value (fault injected with an LD_PRELOAD shim)
@@ -610,6 +684,7 @@ def run_slice(prop, tier):
         sizes = [3, 60, 400] if tier == "quick" else [3, 60, 160, 400, 1500]
         res = common.pmap(c17_task, sizes)
         res += common.pmap(c17_elsewhere_task, ["subdir", "outside"])
+        res += common.pmap(c17_regen_from_generated_task, [0])
     elif prop == "C18":
         res = common.pmap(c18_task, [3, 40] if tier == "quick" else [3, 40, 300])
     elif prop == "C08":
@@ -653,6 +728,8 @@ def replay_case(prop, case):
         r = c08_show_filters_task(0)
     elif "cli_c08_repeat" in case:
         r = c08_repeat_task(tuple(case["cli_c08_repeat"]))
+    elif "cli_c17_regen" in case:
+        r = c17_regen_from_generated_task(0)
     elif "cli_c17_else" in case:
         r = c17_elsewhere_task(case["cli_c17_else"])
     elif "cli_c17" in case:
